@@ -71,7 +71,13 @@ def gen_group(rng, i):
         if rng.random() < 0.1:
             mode = " run-mode: no-run"
         comment = f"~{ident}{mode} :~ " if (ident or mode) else ""
-        members.append(comment + pr["text"])
+        text = pr["text"]
+        if rng.random() < 0.15 and "][" in text:
+            # a member that ends the whole run: stop_all() (under next_paths the later members never start); first component,
+            # so that no skip()/stop() of the member's own comes before it
+            head, tail = text.split("][", 1)
+            text = head + f"][ eq.nocontrib(line_number(), {rng.choice([0, 1, 1, 2])}) -> stop_all() " + tail
+        members.append(comment + text)
     # hostile data cells (quotes, commas, newlines, unicode), header row as the generators expect
     rows = [["id", "a", "b"]]
     for j in range(1, rng.choice([2, 3, 5, 7])):
@@ -154,7 +160,7 @@ def run(ctx):
         ctx.violation("archive", {"what": fails[0]["kind"], "case": fails[0], "more": fails[1:3], "failures": len(fails)})
     ctx.coverage.update({
         "evaluations": sum(len(j["runs"]) for j in jobs), "distinct_nontrivial": len({repr((j["groups"]["g"], j["files"]["f"], o["method"])) for j, o in src if any(m["lines"] for m in o["members"])}),
-        "rule": "groups of 1-3 generated csvpaths (identity by id/Id/name or none -> index; unmatched-mode keep, return-mode no-matches, 10% run-mode no-run; stop/fail/print/error components; 6% of the files have no records) over files whose "
+        "rule": "groups of 1-3 generated csvpaths (identity by id/Id/name or none -> index; unmatched-mode keep, return-mode no-matches, 10% run-mode no-run; stop/fail/print/error components, 15% of the members call stop_all() on some line; 6% of the files have no records) over files whose "
                 "cells contain quotes, delimiters, newlines and non-ASCII text; each group run with all six methods by a fresh CsvPaths; for every member: memory vs files vs member manifest, "
                 "and the run manifest vs all members. Non-trivial = distinct (group, file, method) where some member collected lines.",
         "samples": [{"group": jobs[0]["groups"]["g"], "rows": jobs[0]["files"]["f"]}],
